@@ -35,6 +35,7 @@ class Registry:
         self.canaries = []         # (name, callable(registry) -> Contract variant that must be refuted, clause name)
         self.named_sorts = {}
         self.ctypes = {}           # C type name -> Sort (Cython front end)
+        self.order_keys = {}       # cls -> field by which objects of that class are ordered (<, >)
         self.pointees = set()      # classes that model the target of a C pointer (ptr[0] dereferences)
 
     def declare_class(self, cls, fields, ctor=None):
